@@ -425,8 +425,10 @@ def write_evidence(ctx, coverage, assumptions=None, level="proof"):
         "violations": len(ctx.violations),
         "known_findings_hit": ctx.known_hits,
     }
-    os.makedirs(os.path.join(ROOT, "evidence"), exist_ok=True)
-    with open(os.path.join(ROOT, "evidence", ctx.id + ".json"), "w") as fh:
+    # a run against a scratch tree (VERIF_CACHE set, see tools/try_seed.sh) must not overwrite the committed evidence
+    evdir = os.path.join(CACHE, "evidence") if os.environ.get("VERIF_CACHE") else os.path.join(ROOT, "evidence")
+    os.makedirs(evdir, exist_ok=True)
+    with open(os.path.join(evdir, ctx.id + ".json"), "w") as fh:
         json.dump(ev, fh, indent=1, ensure_ascii=False, default=str)
     return ev
 
